@@ -848,7 +848,7 @@ def o_model_sweep(p, cfg):
     import itertools
     pids = p.get("pids", ["doi:10.1/ab", "ab", "doi:10.1/a"])
     contents = [b"content-one", b"content-two"][:p.get("contents", 2)]
-    fmts = [None, "fmt-x"]
+    fmts = p.get("fmts") or [None, "fmt-x"]
     if p.get("explicit_default"):
         fmts.append("@default")      # the store's default namespace passed explicitly
     menu = []
@@ -867,9 +867,10 @@ def o_model_sweep(p, cfg):
             for f in fmts:
                 menu.append(("smeta", pid, f))
             menu.append(("dmeta", pid, None))
-            if p.get("explicit_default"):
-                for f in fmts[1:]:
-                    menu.append(("dmeta", pid, f))
+            if p.get("explicit_default") or p.get("fmts"):
+                for f in fmts:
+                    if f is not None:
+                        menu.append(("dmeta", pid, f))
     if p.get("no_objects"):
         menu = [m for m in menu if m[0] in ("smeta", "dmeta")]
     n = p.get("length", 3)
@@ -943,6 +944,18 @@ def o_model_sweep(p, cfg):
                 bad = _compare(model, lay, ns, pids)
                 if bad:
                     return True, f"after {list(seq[:i + 1])}: {bad}"
+                if p.get("check_retrieve"):
+                    for q in pids[:2]:
+                        for f in fmts:
+                            fa = ns if f == "@default" else f
+                            key = (q, None if f == "@default" else f)
+                            got = outcome(lambda: store.retrieve_metadata(q, fa).read())
+                            want = model.M.get(key)
+                            if (got[0] == "return") != (want is not None) or \
+                                    (got[0] == "return" and got[1] != want):
+                                return True, (f"after {list(seq[:i + 1])}: retrieve_metadata({q!r}, {fa!r}) gives "
+                                              f"{got[1] if got[0] == 'return' else got[1]!r}, the calls imply "
+                                              f"{want!r}")
         finally:
             shutil.rmtree(root, ignore_errors=True)
     return False, f"{tried} call sequences of length {n} agree with the reference model"
